@@ -1,4 +1,9 @@
 import CedarVerif.Cedar.Ext
+import CedarVerif.Lemmas.ExtDecimal
+import CedarVerif.Lemmas.ExtDuration
+import CedarVerif.Lemmas.ExtDatetime
+import CedarVerif.Lemmas.ExtIP
+import CedarVerif.Lemmas.ExtDatetimeParse
 /-
 C07 — Extension types (decimal, ip, datetime, duration) compute exact results.
 Property theorems about the mirrors in `Cedar/Ext.lean`.
@@ -24,5 +29,469 @@ theorem ext_eq_by_value :
     Duration.parse "1d" = Duration.parse "24h" ∧
     Datetime.parse "2024-01-01T00:00:00+0100" = Datetime.parse "2023-12-31T23:00:00Z" := by
   refine ⟨by decide +kernel, by decide +kernel, by decide +kernel, by decide +kernel, by decide +kernel⟩
+
+/-! ## decimal -/
+
+/-- **decimal, accepted language and exact value.** For a literal of the declarative language
+    (optional `-`, ≥ 1 ASCII digits, `.`, 1..4 ASCII digits) `Decimal.parse` returns exactly the scaled value
+    `± (ip·10⁴ + fp·10^(4-|fp|))` when it is an i64, and fails otherwise. -/
+theorem decimal_parse_exact (neg : Bool) (ip fp : List Char) (hwf : Decimal.WF ip fp) (h4 : fp.length ≤ 4) :
+    Decimal.parse (String.ofList (Decimal.render neg ip fp)) =
+      if inI64 (Decimal.exact neg ip fp) then some (Decimal.exact neg ip fp) else none := by
+  have hs := (Decimal.split_iff (Decimal.render neg ip fp) neg ip fp).mpr ⟨rfl, hwf⟩
+  obtain ⟨_, h2, _, h5⟩ := hwf
+  obtain ⟨b1, b2⟩ := Decimal.fp_bound fp h2 h4 h5
+  simp only [Decimal.parse, String.toList_ofList, hs]
+  exact Decimal.arith_exact neg _ _ _ h4 b1 b2
+
+/-- more than four fraction digits are rejected (`TooManyDigits`), whatever the value -/
+theorem decimal_parse_tooManyDigits (neg : Bool) (ip fp : List Char) (hwf : Decimal.WF ip fp) (h4 : 4 < fp.length) :
+    Decimal.parse (String.ofList (Decimal.render neg ip fp)) = none := by
+  have hs := (Decimal.split_iff (Decimal.render neg ip fp) neg ip fp).mpr ⟨rfl, hwf⟩
+  simp only [Decimal.parse, String.toList_ofList, hs]
+  exact Decimal.arith_tooManyDigits neg _ _ _ h4
+
+/-- **decimal, both directions.** `parse s = some v` iff `s` is a literal of the declarative language with at
+    most four fraction digits, `v` is its exact scaled value and `v` is an i64. In particular every string outside
+    the language (no dot, empty integer or fraction part, non-digit, trailing garbage, > 4 fraction digits) and
+    every out-of-range literal gives `none`. -/
+theorem decimal_parse_some_iff (s : String) (v : Int) :
+    Decimal.parse s = some v ↔
+      ∃ neg ip fp, s.toList = Decimal.render neg ip fp ∧ Decimal.WF ip fp ∧ fp.length ≤ 4 ∧
+        v = Decimal.exact neg ip fp ∧ inI64 v = true := by
+  constructor
+  · intro h
+    unfold Decimal.parse at h
+    split at h
+    · cases h
+    · rename_i neg ip fp hs
+      obtain ⟨hr, hwf⟩ := (Decimal.split_iff _ _ _ _).mp hs
+      by_cases h4 : fp.length ≤ 4
+      · obtain ⟨b1, b2⟩ := Decimal.fp_bound fp hwf.2.1 h4 hwf.2.2.2
+        have ha : Decimal.arith neg (natOfDigits ip) (natOfDigits fp) fp.length =
+            if inI64 (Decimal.exact neg ip fp) then some (Decimal.exact neg ip fp) else none :=
+          Decimal.arith_exact neg _ _ _ h4 b1 b2
+        rw [ha] at h
+        by_cases hin : inI64 (Decimal.exact neg ip fp) = true
+        · rw [if_pos hin] at h; cases h
+          exact ⟨neg, ip, fp, hr, hwf, h4, rfl, hin⟩
+        · rw [if_neg hin] at h; cases h
+      · rw [Decimal.arith_tooManyDigits neg _ _ _ (by omega)] at h; cases h
+  · rintro ⟨neg, ip, fp, hr, hwf, h4, rfl, hin⟩
+    have := decimal_parse_exact neg ip fp hwf h4
+    rw [← hr, String.ofList_toList, hin] at this
+    simpa using this
+
+/-- strings outside the declarative language are rejected -/
+theorem decimal_parse_none_of_not_lang (s : String)
+    (h : ¬ ∃ neg ip fp, s.toList = Decimal.render neg ip fp ∧ Decimal.WF ip fp ∧ fp.length ≤ 4) :
+    Decimal.parse s = none := by
+  cases hp : Decimal.parse s with
+  | none => rfl
+  | some v =>
+    obtain ⟨neg, ip, fp, a, b, c, _⟩ := (decimal_parse_some_iff s v).mp hp
+    exact absurd ⟨neg, ip, fp, a, b, c⟩ h
+
+-- non-vacuity: the largest and smallest decimals, one beyond, and near-miss strings
+example : Decimal.parse "922337203685477.5807" = some 9223372036854775807 ∧
+    Decimal.parse "-922337203685477.5808" = some (-9223372036854775808) ∧
+    Decimal.parse "922337203685477.5808" = none ∧ Decimal.parse "1.23456" = none ∧
+    Decimal.parse "1." = none ∧ Decimal.parse ".5" = none ∧ Decimal.parse "12" = none ∧
+    Decimal.parse "1.2x" = none ∧ Decimal.parse "-0.5" = some (-5000) := by decide +kernel
+example : Decimal.WF "12".toList "34".toList ∧ Decimal.exact true "12".toList "34".toList = -123400 ∧
+    String.ofList (Decimal.render true "12".toList "34".toList) = "-12.34" := by decide +kernel
+
+/-! ## duration -/
+
+/-- exact value (milliseconds) of the duration literal with the given digit strings (absent component = 0) -/
+def durationExact (neg : Bool) (D H M S MS : Option (List Char)) : Int :=
+  Duration.exact neg (Duration.cval D) (Duration.cval H) (Duration.cval M) (Duration.cval S) (Duration.cval MS)
+
+/-- **duration, accepted language and exact value.** For a literal `-?(\d+d)?(\d+h)?(\d+m)?(\d+s)?(\d+ms)?`
+    with at least one component, `Duration.parse` returns exactly `± (ms + 1000 s + 60000 m + 3600000 h + 86400000 d)`
+    when that is an i64 and fails otherwise (this subsumes the u64 overflow of a single component, see
+    `duration_parse_component_overflow`). -/
+theorem duration_parse_exact (neg : Bool) (D H M S MS : Option (List Char)) (hwf : Duration.WF D H M S MS) :
+    Duration.parse (String.ofList (Duration.render neg D H M S MS)) =
+      if inI64 (durationExact neg D H M S MS) then some (durationExact neg D H M S MS) else none := by
+  have hs := (Duration.split_iff (Duration.render neg D H M S MS) neg _ _ _ _ _).mpr
+    ⟨D, H, M, S, MS, rfl, hwf, rfl, rfl, rfl, rfl, rfl⟩
+  simp only [Duration.parse, String.toList_ofList, hs]
+  cases ha : Duration.arith neg (D.map natOfDigits) (H.map natOfDigits) (M.map natOfDigits) (S.map natOfDigits)
+      (MS.map natOfDigits) with
+  | some v =>
+    obtain ⟨rfl, hv⟩ := (Duration.arith_eq_some _ _ _ _ _ _ _).mp ha
+    have : inI64 (durationExact neg D H M S MS) = true := (inI64_iff _).mpr hv
+    rw [this]; rfl
+  | none =>
+    cases hin : inI64 (durationExact neg D H M S MS) with
+    | false => rfl
+    | true =>
+      have := (Duration.arith_eq_some neg (D.map natOfDigits) (H.map natOfDigits) (M.map natOfDigits)
+        (S.map natOfDigits) (MS.map natOfDigits) (durationExact neg D H M S MS)).mpr ⟨rfl, (inI64_iff _).mp hin⟩
+      rw [ha] at this; cases this
+
+/-- **duration, both directions.** `parse s = some v` iff `s` is a literal of the declarative language, `v` its exact
+    value and `v` an i64. Everything else (empty string, `-`, components out of order or repeated, missing digits,
+    unknown units, trailing garbage, overflow) gives `none`. -/
+theorem duration_parse_some_iff (s : String) (v : Int) :
+    Duration.parse s = some v ↔
+      ∃ neg D H M S MS, s.toList = Duration.render neg D H M S MS ∧ Duration.WF D H M S MS ∧
+        v = durationExact neg D H M S MS ∧ inI64 v = true := by
+  constructor
+  · intro h
+    unfold Duration.parse at h
+    split at h
+    · cases h
+    · rename_i neg d hh m sec ms hs
+      obtain ⟨D, H, M, S, MS, hr, hwf, rfl, rfl, rfl, rfl, rfl⟩ := (Duration.split_iff _ _ _ _ _ _ _).mp hs
+      obtain ⟨rfl, hv⟩ := (Duration.arith_eq_some _ _ _ _ _ _ _).mp h
+      exact ⟨neg, D, H, M, S, MS, hr, hwf, rfl, (inI64_iff _).mpr hv⟩
+  · rintro ⟨neg, D, H, M, S, MS, hr, hwf, rfl, hin⟩
+    have := duration_parse_exact neg D H M S MS hwf
+    rw [← hr, String.ofList_toList, hin] at this
+    simpa using this
+
+/-- strings outside the declarative language are rejected -/
+theorem duration_parse_none_of_not_lang (s : String)
+    (h : ¬ ∃ neg D H M S MS, s.toList = Duration.render neg D H M S MS ∧ Duration.WF D H M S MS) :
+    Duration.parse s = none := by
+  cases hp : Duration.parse s with
+  | none => rfl
+  | some v =>
+    obtain ⟨neg, D, H, M, S, MS, a, b, _⟩ := (duration_parse_some_iff s v).mp hp
+    exact absurd ⟨neg, D, H, M, S, MS, a, b⟩ h
+
+/-- a component that does not fit a u64 (Rust: `parse::<u64>` fails) makes the literal fail -/
+theorem duration_parse_component_overflow (neg : Bool) (D H M S MS : Option (List Char))
+    (hwf : Duration.WF D H M S MS)
+    (hbig : Duration.u64Max < Duration.cval D ∨ Duration.u64Max < Duration.cval H ∨ Duration.u64Max < Duration.cval M ∨
+            Duration.u64Max < Duration.cval S ∨ Duration.u64Max < Duration.cval MS) :
+    Duration.parse (String.ofList (Duration.render neg D H M S MS)) = none := by
+  rw [duration_parse_exact neg D H M S MS hwf]
+  have : inI64 (durationExact neg D H M S MS) = false := by
+    rw [inI64_false_iff]
+    simp only [durationExact, Duration.exact]
+    have hu : Duration.u64Max = 18446744073709551615 := rfl
+    rw [hu] at hbig
+    cases neg <;> simp only [Bool.false_eq_true, if_false, if_true] <;> omega
+  rw [this]; rfl
+
+-- non-vacuity: extremes of the i64 range, ordering, `m` vs `ms`, near misses
+example : Duration.parse "1d2h3m4s5ms" = some 93784005 ∧ Duration.parse "-9223372036854775808ms" = some (-9223372036854775808) ∧
+    Duration.parse "9223372036854775808ms" = none ∧ Duration.parse "106751991167d7h12m55s807ms" = some 9223372036854775807 ∧
+    Duration.parse "106751991167d7h12m55s808ms" = none ∧ Duration.parse "1h1d" = none ∧ Duration.parse "-" = none ∧
+    Duration.parse "" = none ∧ Duration.parse "5ms" = some 5 ∧ Duration.parse "5m5ms" = some 300005 ∧
+    Duration.parse "18446744073709551616d" = none ∧ Duration.parse "1d1d" = none ∧ Duration.parse "1x" = none := by
+  decide +kernel
+example : Duration.WF (some "1".toList) none (some "30".toList) none (some "7".toList) ∧
+    durationExact true (some "1".toList) none (some "30".toList) none (some "7".toList) = -88200007 ∧
+    String.ofList (Duration.render true (some "1".toList) none (some "30".toList) none (some "7".toList)) = "-1d30m7ms" := by
+  decide +kernel
+
+/-! ## datetime / duration methods -/
+
+/-- **toDate is the floor to a day boundary.** For every i64 epoch `t`: the result is `⌊t / day⌋ · day` when that is
+    an i64 and an error otherwise (`t` within the first partial day above `i64::MIN`); a result `d` satisfies
+    `d ≤ t < d + 86400000`, is a multiple of a day, and is an i64 — also for negative epochs. -/
+theorem toDate_floor (t : Int) :
+    Datetime.toDate t =
+      (if inI64 (t / 86400000 * 86400000) then some (t / 86400000 * 86400000) else none) ∧
+    (∀ d, Datetime.toDate t = some d → d ≤ t ∧ t < d + 86400000 ∧ d % 86400000 = 0 ∧ inI64 d = true) ∧
+    (inI64 t = true → (Datetime.toDate t = none ↔ t / 86400000 * 86400000 < i64Min)) := by
+  have h0 : Datetime.toDate t =
+      (if inI64 (t / 86400000 * 86400000) then some (t / 86400000 * 86400000) else none) := by
+    rw [Datetime.toDate_eq]; rfl
+  refine ⟨h0, ?_, ?_⟩
+  · intro d hd
+    rw [h0] at hd
+    by_cases hin : inI64 (t / 86400000 * 86400000) = true
+    · rw [if_pos hin] at hd; cases hd
+      exact ⟨by omega, by omega, by omega, hin⟩
+    · rw [if_neg hin] at hd; cases hd
+  · intro ht
+    rw [h0]
+    rw [inI64_iff] at ht
+    have e : i64Min = -9223372036854775808 := rfl
+    rw [e]
+    by_cases hin : inI64 (t / 86400000 * 86400000) = true
+    · rw [if_pos hin]; rw [inI64_iff] at hin
+      constructor
+      · intro h; cases h
+      · intro h; omega
+    · rw [if_neg hin]
+      have hin' : inI64 (t / 86400000 * 86400000) = false := by simpa using hin
+      rw [inI64_false_iff] at hin'
+      constructor
+      · intro _; omega
+      · intro _; rfl
+
+example : Datetime.toDate (-1) = some (-86400000) ∧ Datetime.toDate 86399999 = some 0 ∧
+    Datetime.toDate (-86400000) = some (-86400000) ∧ Datetime.toDate (-9223372036854775808) = none ∧
+    Datetime.toDate 9223372036854775807 = some 9223372036828800000 := by decide +kernel
+
+/-- **toTime is the Euclidean remainder modulo a day**: `0 ≤ toTime t < 86400000` and `t - toTime t` is a multiple
+    of a day, for negative epochs too (the Rust code distinguishes the sign and uses the truncated `%`). -/
+theorem toTime_range (t : Int) :
+    Datetime.toTime t = t % 86400000 ∧ 0 ≤ Datetime.toTime t ∧ Datetime.toTime t < 86400000 ∧
+    (t - Datetime.toTime t) % 86400000 = 0 ∧ t - Datetime.toTime t = t / 86400000 * 86400000 := by
+  rw [Datetime.toTime_eq_emod]
+  refine ⟨rfl, ?_, ?_, ?_, ?_⟩ <;> omega
+
+/-- `toDate` and `toTime` split an epoch: date part + time part = the epoch -/
+theorem toDate_add_toTime (t d : Int) (h : Datetime.toDate t = some d) : d + Datetime.toTime t = t := by
+  have h0 := (toDate_floor t).1
+  rw [h0] at h
+  rw [Datetime.toTime_eq_emod]
+  by_cases hin : inI64 (t / 86400000 * 86400000) = true
+  · rw [if_pos hin] at h; cases h; omega
+  · rw [if_neg hin] at h; cases h
+
+example : Datetime.toTime (-1) = 86399999 ∧ Datetime.toTime (-86400000) = 0 ∧ Datetime.toTime 86400001 = 1 ∧
+    Datetime.toTime (-9223372036854775808) = 60424192 := by decide +kernel
+
+/-- **toSeconds … toDays divide with truncation toward zero.** The nested truncating divisions of the Rust code
+    (`to_minutes = to_seconds / 60`, …) equal one truncating division by the product, and that quotient `q`
+    satisfies `q·n ≤ d < (q+1)·n` for `d ≥ 0` and `(q-1)·n < d ≤ q·n` for `d ≤ 0`. -/
+theorem toX_truncating (d : Int) :
+    callExt1 "toMilliseconds" (.ext (.duration d)) = .ok (vint d) ∧
+    callExt1 "toSeconds" (.ext (.duration d)) = .ok (vint (Int.tdiv d 1000)) ∧
+    callExt1 "toMinutes" (.ext (.duration d)) = .ok (vint (Int.tdiv d 60000)) ∧
+    callExt1 "toHours" (.ext (.duration d)) = .ok (vint (Int.tdiv d 3600000)) ∧
+    callExt1 "toDays" (.ext (.duration d)) = .ok (vint (Int.tdiv d 86400000)) ∧
+    (∀ n : Int, 0 < n →
+      (0 ≤ d → Int.tdiv d n * n ≤ d ∧ d < (Int.tdiv d n + 1) * n) ∧
+      (d ≤ 0 → (Int.tdiv d n - 1) * n < d ∧ d ≤ Int.tdiv d n * n)) := by
+  have e2 : Int.tdiv (Int.tdiv d 1000) 60 = Int.tdiv d 60000 := Datetime.tdiv_tdiv d 1000 60 (by decide) (by decide)
+  have e3 : Int.tdiv (Int.tdiv d 60000) 60 = Int.tdiv d 3600000 := Datetime.tdiv_tdiv d 60000 60 (by decide) (by decide)
+  have e4 : Int.tdiv (Int.tdiv d 3600000) 24 = Int.tdiv d 86400000 :=
+    Datetime.tdiv_tdiv d 3600000 24 (by decide) (by decide)
+  refine ⟨rfl, rfl, ?_, ?_, ?_, fun n hn => Datetime.tdiv_trunc d n hn⟩
+  · show Except.ok (vint (Int.tdiv (Int.tdiv d 1000) 60)) = _
+    rw [e2]
+  · show Except.ok (vint (Int.tdiv (Int.tdiv (Int.tdiv d 1000) 60) 60)) = _
+    rw [e2, e3]
+  · show Except.ok (vint (Int.tdiv (Int.tdiv (Int.tdiv (Int.tdiv d 1000) 60) 60) 24)) = _
+    rw [e2, e3, e4]
+
+example : callExt1 "toMinutes" (.ext (.duration (-119999))) = .ok (vint (-1)) ∧
+    callExt1 "toDays" (.ext (.duration (-86399999))) = .ok (vint 0) ∧
+    callExt1 "toSeconds" (.ext (.duration 1999)) = .ok (vint 1) := by
+  refine ⟨rfl, rfl, rfl⟩
+
+/-! ## calendar -/
+
+/-- `daysFromCivil` is the day count of the proleptic Gregorian calendar: it is 0 at 1970-01-01 … -/
+theorem daysFromCivil_epoch : Datetime.daysFromCivil 1970 1 1 = 0 := Datetime.daysFromCivil_epoch
+
+/-- … and the next valid civil day (end of month / leap February / end of year handled by `nextDay`) is valid and has
+    day number exactly one larger. Together with `daysFromCivil_epoch` this determines the function on all valid
+    dates from 0000-01-01 on. -/
+theorem daysFromCivil_consecutive (y m d : Nat) (h : Datetime.dateOk y m d = true) :
+    Datetime.dateOk (Datetime.nextDay y m d).1 (Datetime.nextDay y m d).2.1 (Datetime.nextDay y m d).2.2 = true ∧
+    Datetime.daysFromCivil (Datetime.nextDay y m d).1 (Datetime.nextDay y m d).2.1 (Datetime.nextDay y m d).2.2 =
+      Datetime.daysFromCivil y m d + 1 :=
+  Datetime.daysFromCivil_nextDay y m d h
+
+/-- `daysFromCivil` is strictly monotone in (y, m, d) (lexicographic) over valid dates -/
+theorem daysFromCivil_strictMono (y1 m1 d1 y2 m2 d2 : Nat)
+    (ok1 : Datetime.dateOk y1 m1 d1 = true) (ok2 : Datetime.dateOk y2 m2 d2 = true)
+    (hlt : Datetime.dateLt y1 m1 d1 y2 m2 d2) :
+    Datetime.daysFromCivil y1 m1 d1 < Datetime.daysFromCivil y2 m2 d2 := by
+  rw [Datetime.daysFromCivil_eq, Datetime.daysFromCivil_eq]
+  have hl := Datetime.lex_internal y1 m1 d1 y2 m2 d2 ok1 ok2 hlt
+  have b1 := Datetime.doy_bounds y1 m1 d1 ok1
+  have b2 := Datetime.doy_bounds y2 m2 d2 ok2
+  have hy : -1 ≤ Datetime.internalYear y1 m1 := by unfold Datetime.internalYear; split <;> omega
+  have := Datetime.internal_lt _ _ _ _ hy b1.2 b2.1 hl
+  omega
+
+example : Datetime.nextDay 2024 2 28 = (2024, 2, 29) ∧ Datetime.nextDay 2023 2 28 = (2023, 3, 1) ∧
+    Datetime.nextDay 1900 2 28 = (1900, 3, 1) ∧ Datetime.nextDay 2000 2 29 = (2000, 3, 1) ∧
+    Datetime.nextDay 1999 12 31 = (2000, 1, 1) ∧ Datetime.dateOk 2024 2 29 = true ∧
+    Datetime.daysFromCivil 2024 2 29 = 19782 ∧ Datetime.daysFromCivil 0 1 1 = -719528 ∧
+    Datetime.dateLt 1999 12 31 2000 1 1 := by decide +kernel
+
+/-! ## ip ranges -/
+
+/-- network ≤ addr ≤ broadcast -/
+theorem network_le_addr_le_broadcast (v6 : Bool) (addr pl : Nat) :
+    IPAddr.network v6 addr pl ≤ addr ∧ addr ≤ IPAddr.broadcast v6 addr pl :=
+  ⟨IPAddr.network_le v6 addr pl, IPAddr.le_broadcast v6 addr pl⟩
+
+/-- the address interval `[network, broadcast]` is exactly the CIDR block (the addresses sharing the first `pl` bits) -/
+theorem block_eq_interval (v6 : Bool) (addr pl x : Nat) :
+    IPAddr.inBlock v6 addr pl x ↔ IPAddr.network v6 addr pl ≤ x ∧ x ≤ IPAddr.broadcast v6 addr pl :=
+  IPAddr.inBlock_iff v6 addr pl x
+
+/-- **isInRange** holds iff both values are of the same family and the child's address interval is contained in the
+    parent's (stated both with the intervals and with the CIDR blocks) -/
+theorem isInRange_spec (v6a : Bool) (a pa : Nat) (v6b : Bool) (b pb : Nat) :
+    (IPAddr.isInRange v6a a pa v6b b pb = true ↔
+      v6a = v6b ∧ ∀ x, (IPAddr.network v6a a pa ≤ x ∧ x ≤ IPAddr.broadcast v6a a pa) →
+                       (IPAddr.network v6b b pb ≤ x ∧ x ≤ IPAddr.broadcast v6b b pb)) ∧
+    (IPAddr.isInRange v6a a pa v6b b pb = true ↔
+      v6a = v6b ∧ ∀ x, IPAddr.inBlock v6a a pa x → IPAddr.inBlock v6b b pb x) := by
+  have key : IPAddr.isInRange v6a a pa v6b b pb = true ↔
+      v6a = v6b ∧ ∀ x, (IPAddr.network v6a a pa ≤ x ∧ x ≤ IPAddr.broadcast v6a a pa) →
+                       (IPAddr.network v6b b pb ≤ x ∧ x ≤ IPAddr.broadcast v6b b pb) := by
+    simp only [IPAddr.isInRange, Bool.and_eq_true, beq_iff_eq, decide_eq_true_eq]
+    have hnb := IPAddr.network_le_broadcast v6a a pa
+    constructor
+    · rintro ⟨⟨h1, h2⟩, h3⟩
+      exact ⟨h1, fun x hx => ⟨Nat.le_trans h2 hx.1, Nat.le_trans hx.2 h3⟩⟩
+    · rintro ⟨h1, h2⟩
+      exact ⟨⟨h1, (h2 _ ⟨Nat.le_refl _, hnb⟩).1⟩, (h2 _ ⟨hnb, Nat.le_refl _⟩).2⟩
+  refine ⟨key, ?_⟩
+  rw [key]
+  simp only [IPAddr.inBlock_iff]
+
+/-- the model's `/`-and-`*` network and broadcast equal the Rust bit-mask formulation
+    (`addr & MAX.checked_shl(w - p).unwrap_or(0)`, `addr | MAX.checked_shr(p).unwrap_or(0)`) -/
+theorem network_broadcast_bitmask (v6 : Bool) (addr pl : Nat) (ha : addr < 2 ^ IPAddr.width v6)
+    (hp : pl ≤ IPAddr.width v6) :
+    IPAddr.network v6 addr pl = addr &&& IPAddr.rustNetmask (IPAddr.width v6) pl ∧
+    IPAddr.broadcast v6 addr pl = addr ||| IPAddr.rustHostmask (IPAddr.width v6) pl :=
+  ⟨IPAddr.network_eq_and v6 addr pl ha hp, IPAddr.broadcast_eq_or v6 addr pl hp⟩
+
+/-- **standard CIDR containment**: for prefix lengths within the family's width, `isInRange` holds iff the families
+    agree, the parent's prefix is not longer than the child's, and both addresses agree on the parent's prefix bits -/
+theorem isInRange_iff_prefix (v6a : Bool) (a pa : Nat) (v6b : Bool) (b pb : Nat)
+    (hpa : pa ≤ IPAddr.width v6a) (hpb : pb ≤ IPAddr.width v6b) :
+    IPAddr.isInRange v6a a pa v6b b pb = true ↔
+      v6a = v6b ∧ pb ≤ pa ∧ a / 2 ^ (IPAddr.width v6b - pb) = b / 2 ^ (IPAddr.width v6b - pb) := by
+  rw [(isInRange_spec v6a a pa v6b b pb).2]
+  constructor
+  · rintro ⟨rfl, h⟩; exact ⟨rfl, (IPAddr.subset_iff_prefix _ a pa b pb hpa hpb).mp h⟩
+  · rintro ⟨rfl, h⟩; exact ⟨rfl, (IPAddr.subset_iff_prefix _ a pa b pb hpa hpb).mpr h⟩
+
+-- 10.1.2.3/24 is in 10.1.0.0/16 and not vice versa; /0 contains everything; the masks for /0, /24, /32
+example : IPAddr.isInRange false 0x0a010203 24 false 0x0a010000 16 = true ∧
+    IPAddr.isInRange false 0x0a010000 16 false 0x0a010203 24 = false ∧
+    IPAddr.isInRange false 0x0a010203 32 false 0 0 = true ∧
+    IPAddr.isInRange false 0x0a010203 32 true 0 0 = false ∧
+    IPAddr.rustNetmask 32 0 = 0 ∧ IPAddr.rustNetmask 32 24 = 0xffffff00 ∧ IPAddr.rustNetmask 32 32 = 0xffffffff ∧
+    IPAddr.rustHostmask 32 0 = 0xffffffff ∧ IPAddr.rustHostmask 32 24 = 0xff ∧ IPAddr.rustHostmask 32 32 = 0 ∧
+    IPAddr.network false 0x0a010203 24 = 0x0a010200 ∧ IPAddr.broadcast false 0x0a010203 24 = 0x0a0102ff := by
+  decide +kernel
+
+/-- the address of the dotted quad `a.b.c.d` -/
+def v4addr (a b c d : Nat) : Nat := ((a * 256 + b) * 256 + c) * 256 + d
+
+/-- **isLoopback**: IPv4 — first octet 127 and prefix length ≥ 8 (the range lies inside 127.0.0.0/8);
+    IPv6 — exactly `::1` with prefix length 128 -/
+theorem loopback_spec :
+    (∀ a b c d pl, b < 256 → c < 256 → d < 256 →
+      (IPAddr.isLoopback false (v4addr a b c d) pl = true ↔ a = 127 ∧ 8 ≤ pl)) ∧
+    (∀ addr pl, IPAddr.isLoopback true addr pl = true ↔ addr = 1 ∧ 128 ≤ pl) := by
+  constructor
+  · intro a b c d pl hb hc hd
+    have e : v4addr a b c d / 2 ^ 24 = a := by simp only [v4addr]; omega
+    simp only [IPAddr.isLoopback, Bool.false_eq_true, if_false, e, Bool.and_eq_true, beq_iff_eq, decide_eq_true_eq,
+      ge_iff_le]
+  · intro addr pl
+    simp only [IPAddr.isLoopback, if_true, Bool.and_eq_true, beq_iff_eq, decide_eq_true_eq, ge_iff_le]
+
+/-- **isMulticast**: IPv4 — first octet in 224..239 (top four bits `1110`) and prefix length ≥ 4;
+    IPv6 — first byte `0xff` and prefix length ≥ 8 -/
+theorem multicast_spec :
+    (∀ a b c d pl, b < 256 → c < 256 → d < 256 →
+      (IPAddr.isMulticast false (v4addr a b c d) pl = true ↔ (224 ≤ a ∧ a ≤ 239) ∧ 4 ≤ pl)) ∧
+    (∀ b0 rest pl, rest < 2 ^ 120 →
+      (IPAddr.isMulticast true (b0 * 2 ^ 120 + rest) pl = true ↔ b0 = 255 ∧ 8 ≤ pl)) := by
+  constructor
+  · intro a b c d pl hb hc hd
+    have e : v4addr a b c d / 2 ^ 28 = 14 ↔ (224 ≤ a ∧ a ≤ 239) := by simp only [v4addr]; omega
+    simp only [IPAddr.isMulticast, Bool.false_eq_true, if_false, Bool.and_eq_true, beq_iff_eq, decide_eq_true_eq,
+      ge_iff_le, e]
+  · intro b0 rest pl hr
+    have e : (b0 * 2 ^ 120 + rest) / 2 ^ 120 = b0 := by
+      rw [Nat.add_comm, Nat.add_mul_div_right _ _ (Nat.two_pow_pos 120), Nat.div_eq_of_lt hr, Nat.zero_add]
+    simp only [IPAddr.isMulticast, if_true, e, Bool.and_eq_true, beq_iff_eq, decide_eq_true_eq, ge_iff_le]
+
+-- 127.0.0.1/8 loopback, 127.0.0.1/7 not; ::1 only with /128; 224.0.0.0/4 and 239.255.255.255 multicast, /3 not; ff00::/8
+example : IPAddr.isLoopback false (v4addr 127 0 0 1) 8 = true ∧ IPAddr.isLoopback false (v4addr 127 0 0 1) 7 = false ∧
+    IPAddr.isLoopback true 1 128 = true ∧ IPAddr.isLoopback true 1 127 = false ∧
+    IPAddr.isMulticast false (v4addr 224 0 0 0) 4 = true ∧ IPAddr.isMulticast false (v4addr 239 255 255 255) 32 = true ∧
+    IPAddr.isMulticast false (v4addr 224 0 0 0) 3 = false ∧ IPAddr.isMulticast false (v4addr 240 0 0 0) 32 = false ∧
+    IPAddr.isMulticast true (255 * 2 ^ 120 + 5) 8 = true ∧ IPAddr.isMulticast true (255 * 2 ^ 120 + 5) 7 = false := by
+  decide +kernel
+
+/-! ## datetime literals -/
+
+/-- **datetime, date-only form `YYYY-MM-DD`**: the value is `daysFromCivil · 86400000` when the date exists in the
+    proleptic Gregorian calendar, an error otherwise -/
+theorem datetime_parse_exact_date (ys ms ds : List Char)
+    (h1 : Datetime.digitsN 4 ys) (h2 : Datetime.digitsN 2 ms) (h3 : Datetime.digitsN 2 ds) :
+    Datetime.parse (String.ofList (Datetime.renderDate ys ms ds [])) =
+      if Datetime.dateOk (natOfDigits ys) (natOfDigits ms) (natOfDigits ds) = true then
+        some (Datetime.daysFromCivil (natOfDigits ys) (natOfDigits ms) (natOfDigits ds) * 86400000)
+      else none := by
+  simp only [Datetime.parse, String.toList_ofList, Datetime.parseDate_render ys ms ds [] h1 h2 h3,
+    List.isEmpty_nil, if_true, Datetime.msPerDay]
+
+/-- **datetime, full forms `YYYY-MM-DDThh:mm:ss(.SSS)?(Z|(+|-)hhmm)`**: when the date exists, `hh < 24`, `mm < 60`,
+    `ss < 60` and the offset has `hh < 24`, `mm < 60`, the value is exactly
+    `days·86400000 + (h·3600 + m·60 + s)·1000 + SSS − offsetSeconds·1000`; otherwise an error -/
+theorem datetime_parse_exact (ys ms ds hs mis ss : List Char) (m3 : Option (List Char)) (off : Datetime.Off)
+    (h1 : Datetime.digitsN 4 ys) (h2 : Datetime.digitsN 2 ms) (h3 : Datetime.digitsN 2 ds)
+    (h4 : Datetime.digitsN 2 hs) (h5 : Datetime.digitsN 2 mis) (h6 : Datetime.digitsN 2 ss)
+    (h7 : Datetime.msWF m3) (h8 : Datetime.offWF off) :
+    Datetime.parse (String.ofList (Datetime.renderDate ys ms ds (Datetime.renderTime hs mis ss m3 off))) =
+      if Datetime.dateOk (natOfDigits ys) (natOfDigits ms) (natOfDigits ds) = true ∧
+         natOfDigits hs < 24 ∧ natOfDigits mis < 60 ∧ natOfDigits ss < 60 ∧ Datetime.offOk off = true then
+        some (Datetime.daysFromCivil (natOfDigits ys) (natOfDigits ms) (natOfDigits ds) * 86400000 +
+              ((natOfDigits hs * 3600 + natOfDigits mis * 60 + natOfDigits ss : Nat) : Int) * 1000 +
+              (Datetime.msVal m3 : Int) - Datetime.offSecs off * 1000)
+      else none := by
+  simp only [Datetime.parse, String.toList_ofList,
+    Datetime.parseDate_render ys ms ds _ h1 h2 h3, Datetime.renderTime, List.isEmpty_cons,
+    Datetime.parseHMS_render hs mis ss _ h4 h5 h6, Datetime.parseMsOffset_render m3 off h7 h8, Datetime.msPerDay]
+  cases hdo : Datetime.dateOk (natOfDigits ys) (natOfDigits ms) (natOfDigits ds) <;>
+    cases hoo : Datetime.offOk off <;>
+    by_cases hh : natOfDigits hs < 24 <;> by_cases hmi : natOfDigits mis < 60 <;>
+    by_cases hs' : natOfDigits ss < 60 <;> simp [hh, hmi, hs']
+
+example : Datetime.parse "1970-01-02T00:00:00.001-0100" = some 90000001 ∧
+    Datetime.parse "1969-12-31T23:59:59Z" = some (-1000) ∧ Datetime.parse "2024-02-29" = some 1709164800000 ∧
+    Datetime.parse "2023-02-29" = none ∧ Datetime.parse "2024-01-01T24:00:00Z" = none ∧
+    Datetime.parse "2024-01-01T00:00:60Z" = none ∧ Datetime.parse "2024-01-01T00:00:00+2400" = none ∧
+    Datetime.parse "2024-01-01T00:00:00+2359" = some 1703980860000 ∧ Datetime.parse "2024-01-01T00:00:00" = none ∧
+    Datetime.parse "2024-1-01" = none := by decide +kernel
+example : Datetime.digitsN 4 "1970".toList ∧ Datetime.msWF (some "001".toList) ∧
+    Datetime.offWF (some (false, "01".toList, "00".toList)) ∧
+    String.ofList (Datetime.renderDate "1970".toList "01".toList "02".toList
+      (Datetime.renderTime "00".toList "00".toList "00".toList (some "001".toList)
+        (some (false, "01".toList, "00".toList)))) = "1970-01-02T00:00:00.001-0100" := by
+  refine ⟨by decide +kernel, (show Datetime.digitsN 3 "001".toList by decide +kernel),
+    (show Datetime.digitsN 2 "01".toList ∧ Datetime.digitsN 2 "00".toList by decide +kernel), by decide +kernel⟩
+
+/-! ## ip literals (item not proved in general: only the statement and evaluated instances) -/
+
+/-- NOT PROVED (time): dotted-quad/prefix rendering round-trips through `IPAddr.parse` -/
+def FullStatement_ip_parse_v4_roundtrip : Prop :=
+  ∀ a b c d p : Nat, a < 256 → b < 256 → c < 256 → d < 256 → p ≤ 32 →
+    IPAddr.parse (toString a ++ "." ++ toString b ++ "." ++ toString c ++ "." ++ toString d ++ "/" ++ toString p) =
+      some (.ipaddr false (v4addr a b c d) p)
+
+/-- NOT PROVED (time): converse of `datetime_parse_exact(_date)` — every accepted string is one of the two
+    declarative forms -/
+def FullStatement_datetime_parse_only_lang : Prop :=
+  ∀ (s : String) (v : Int), Datetime.parse s = some v →
+    (∃ ys ms ds, Datetime.digitsN 4 ys ∧ Datetime.digitsN 2 ms ∧ Datetime.digitsN 2 ds ∧
+      s.toList = Datetime.renderDate ys ms ds []) ∨
+    (∃ ys ms ds hs mis ss m3 off, Datetime.digitsN 4 ys ∧ Datetime.digitsN 2 ms ∧ Datetime.digitsN 2 ds ∧
+      Datetime.digitsN 2 hs ∧ Datetime.digitsN 2 mis ∧ Datetime.digitsN 2 ss ∧ Datetime.msWF m3 ∧ Datetime.offWF off ∧
+      s.toList = Datetime.renderDate ys ms ds (Datetime.renderTime hs mis ss m3 off))
+
+-- evaluated instances: round trips, canonical/compressed IPv6, and the documented rejections
+example : IPAddr.parse "192.168.0.1/24" = some (.ipaddr false (v4addr 192 168 0 1) 24) ∧
+    IPAddr.parse "10.0.0.1" = some (.ipaddr false (v4addr 10 0 0 1) 32) ∧
+    IPAddr.parse "::1" = some (.ipaddr true 1 128) ∧ IPAddr.parse "ff00::/8" = some (.ipaddr true (255 * 2 ^ 120) 8) ∧
+    IPAddr.parse "1:2:3:4:5:6:7:8/128" = IPAddr.parse "0001:0002:0003:0004:0005:0006:0007:0008" ∧
+    IPAddr.parse "01.2.3.4" = none ∧ IPAddr.parse "1.2.3.4/032" = none ∧ IPAddr.parse "1.2.3.4/33" = none ∧
+    IPAddr.parse "::1/129" = none ∧ IPAddr.parse "::ffff:1.2.3.4" = none ∧ IPAddr.parse "256.1.1.1" = none ∧
+    IPAddr.parse "1.2.3" = none ∧ IPAddr.parse "1:2:3:4:5:6:7:8:9" = none ∧ IPAddr.parse "1.2.3.4/" = none := by
+  decide +kernel
 
 end Cedar.C07
